@@ -235,7 +235,7 @@ class Ctx:
             self.builds[cfg] = b
         return self.builds[cfg]
 
-    def oracle(self, cfg, defs=(), sources=("oracle.c", "ops_bn.c"), tag=""):
+    def oracle(self, cfg, defs=(), sources=("oracle.c", "ops_bn.c"), tag="", extra=()):
         b = self.build(cfg)
         out = os.path.join(b, "oracle" + tag)
         srcs = [os.path.join(VERIF, "harness", s) for s in sources]
@@ -245,10 +245,11 @@ class Ctx:
                          if f.endswith((".h", ".inc"))]:
             h.update(open(s, "rb").read())
         h.update(repr(defs).encode())
+        h.update(repr(extra).encode())
         hv = h.hexdigest()
         if os.path.exists(out) and os.path.exists(stamp) and open(stamp).read() == hv:
             return out
-        err = rb.cc_harness(b, cfg, srcs, out, defs=list(defs))
+        err = rb.cc_harness(b, cfg, srcs, out, defs=list(defs), extra=list(extra))
         if err:
             raise BuildError("oracle compile failed (%s):\n%s" % (cfg, err))
         open(stamp, "w").write(hv)
@@ -364,8 +365,13 @@ def main():
     # the generated Lean files are a function of the tree: regenerate them on every run (the driver imports them)
     import translate
     gen_all = translate.generate_all(ctx.build("base"))
-    uses_gen = getattr(mod, "USES_GENERATED", False)
-    gen_info = gen_all if uses_gen else {}
+    gen_groups = list(getattr(mod, "GENERATED", ["ep"] if getattr(mod, "USES_GENERATED", False) else []))
+    gen_info = {}
+    if gen_groups:
+        gen_info = {"obligations": [], "failures": []}
+        for g in gen_groups:
+            gen_info["obligations"] += gen_all["groups"].get(g, {}).get("obligations", [])
+            gen_info["failures"] += gen_all["groups"].get(g, {}).get("failures", ["generated group %s missing" % g])
     gen_failures = gen_info.get("failures", []) if gen_info else []
     targets = [props_mod, "driver"]
     rc, out, dt = lake_build(targets)
@@ -458,6 +464,7 @@ def main():
             violations.append((rp, False))
         else:
             rp = write_replay(pid, {"property": pid, "kind": "correspondence-broken", "config": bad[0]["cfg"],
+                                    "proof_problems": proof_problems[:10],
                                     "theorem_or_stream": "correspondence stream %s (model vs implementation)" % bad[0]["stream"],
                                     "op_lines": [bad[0]["line"]], "actual": bad[0]["got"], "driver": bad[0]["verdict"],
                                     "count": len(bad), "seed": seed})
